@@ -249,8 +249,34 @@ func genSf(r *rand.Rand, id int, scripted int) []string {
 			ln("sf", "release", "ok"), ln("sf", "release", "ok"), ln("sf", "end"))
 		return o
 	}
+	if scripted >= 2 {
+		// cancellation of one caller of a shared flight must only fail that caller:
+		// A starts a flight (PD gated), others whose read ts was issued before their call join,
+		// then one of them is cancelled, then PD answers.
+		m := []string{"E", "R"}[scripted%2]
+		o = append(o, ln("sf", "begin", strconv.Itoa(id), m, u(base), u(stride)))
+		o = append(o, ln("sf", "spawn", "0", u(at(1)), "0"), ln("sf", "issue"))
+		// issued so far: pd0 (init), [pd1 to A's flight in mode E], one env issue
+		hi := at(2)
+		if m == "R" {
+			hi = at(1)
+		}
+		switch scripted / 2 {
+		case 1: // B joins, A (the caller that started the flight) is cancelled
+			o = append(o, ln("sf", "spawn", "1", u(hi), "1"), ln("sf", "cancel", "0"))
+		case 2: // B joins, B is cancelled: A must still be served
+			o = append(o, ln("sf", "spawn", "1", u(hi), "0"), ln("sf", "cancel", "1"))
+		case 3: // three joiners, the starter is cancelled
+			o = append(o, ln("sf", "spawn", "1", u(hi), "0"), ln("sf", "spawn", "2", u(at(1)), "1"), ln("sf", "spawn", "3", u(hi), "0"), ln("sf", "cancel", "0"))
+		default: // three joiners, a joiner and then the starter are cancelled
+			o = append(o, ln("sf", "spawn", "1", u(hi), "0"), ln("sf", "spawn", "2", u(hi), "1"), ln("sf", "spawn", "3", u(at(0)+1), "0"), ln("sf", "cancel", "2"), ln("sf", "cancel", "0"))
+		}
+		o = append(o, ln("sf", "release", "ok"), ln("sf", "release", "ok"), ln("sf", "end"))
+		return o
+	}
 	o = append(o, ln("sf", "begin", strconv.Itoa(id), mode, u(base), u(stride)))
 	spawned, pend := 0, false
+	leader := 0 // first validator spawned since the last release: the likely starter of the current flight
 	blocked := map[int]bool{}
 	nsteps := 6 + r.Intn(14)
 	for s := 0; s < nsteps; s++ {
@@ -288,12 +314,17 @@ func genSf(r *rand.Rand, id int, scripted int) []string {
 		case x < 8:
 			o = append(o, ln("sf", "publish"))
 			k++
-		case x < 11 && pend:
+		case x < 10 && pend:
 			o = append(o, ln("sf", "release", []string{"ok", "ok", "ok", "ok", "err"}[r.Intn(5)]))
 			k++
+			leader = spawned
 		default:
 			if spawned > 0 {
-				o = append(o, ln("sf", "cancel", strconv.Itoa(r.Intn(spawned))))
+				t := r.Intn(spawned)
+				if r.Intn(2) == 0 && leader < spawned {
+					t = leader
+				}
+				o = append(o, ln("sf", "cancel", strconv.Itoa(t)))
 			}
 		}
 	}
@@ -390,8 +421,8 @@ func generate(seed int64, thorough bool) []string {
 	}
 	for c := 0; c < 250*mul; c++ {
 		sc := 0
-		if c == 0 {
-			sc = 1
+		if c < 10 {
+			sc = c + 1 // 1: stale single flight; 2..9: cancellation of one caller of a shared flight (E/R x 4 shapes)
 		}
 		o = append(o, genSf(r, c, sc)...)
 	}
